@@ -13,7 +13,7 @@ ID = "C08"
 RULE = (
     "1..3 Twp/Rges per text, numbers of 1-3 digits biased to collide (1/11/111, equal numbers with different directions, "
     "repeats) x 12 full spellings and 14 spellings with N/S and/or E/W left out x default_ns/default_ew supplied through "
-    "{config text, parse() keyword, MasterConfig, nothing} and independently to find_twprge; plus OCR look-alike letters "
+    "{config text, parse() keyword, MasterConfig (set before or after the object is created), nothing} and independently to find_twprge; plus OCR look-alike letters "
     "(I, l, O, S for 1, 1, 0, 5) substituted into the numbers of T..R.. spellings under ocr_scrub. Each Twp/Rge heads a "
     "'Sec N: block' tract. Expected natural forms, tracts and the fixed_twprge warning are computed from the abstract value. "
     "Non-trivial: >= 2 Twp/Rges, or a missing direction, or an OCR substitution. Distinct = distinct abstract case."
@@ -79,7 +79,7 @@ def case(draw, ocr=False):
         trs.append(tr)
     return {
         "trs": trs, "sep": draw(st.sampled_from([", ", "\n", ";\n", "\n\n"])), "tsep": draw(st.sampled_from([" ", "\n", ", "])),
-        "channel": draw(st.sampled_from(["config", "config_long", "kw", "master", "none"])),
+        "channel": draw(st.sampled_from(["config", "config_long", "kw", "master", "master_late", "none"])),
         "dns": draw(st.sampled_from("ns")), "dew": draw(st.sampled_from("ew")), "ocr": ocr,
     }
 
@@ -137,6 +137,11 @@ def oracle(c):
         elif ch == "master":
             MasterConfig.default_ns, MasterConfig.default_ew = dns, dew
             d = PLSSDesc(text, config=ocr_cfg)
+        elif ch == "master_late":
+            # created first, MasterConfig set afterwards: the defaults in force when parsing count
+            d = PLSSDesc(text, config=ocr_cfg, wait_to_parse=True)
+            MasterConfig.default_ns, MasterConfig.default_ew = dns, dew
+            d.parse()
         else:
             d = PLSSDesc(text, config=ocr_cfg)
         ctx = dict(text=text, channel=ch, defaults=[dns, dew], pp_desc=d.pp_desc, want=nat)
@@ -151,7 +156,7 @@ def oracle(c):
         if not c["ocr"] and has_flag != any_missing:
             fails.append(Failure("fixed_twprge_flag", f"{text!r}: fixed_twprge warning present={has_flag}, a direction was missing={any_missing}; w_flags={d.w_flags}", **ctx))
         # find_twprge with the defaults passed as arguments (or MasterConfig in force)
-        kw = {} if ch in ("master", "none") else {"default_ns": dns, "default_ew": dew}
+        kw = {} if ch in ("master", "master_late", "none") else {"default_ns": dns, "default_ew": dew}
         got_f = find_twprge(text, preprocess=True, ocr_scrub=bool(c["ocr"]), **kw)
         if got_f != nat:
             fails.append(Failure("find_twprge", f"find_twprge({text!r}, preprocess=True, {kw}) = {got_f}, expected {nat}", **ctx))
@@ -200,7 +205,7 @@ def render(c):
 SUBS = [
     Sub("spellings", oracle, strategy=lambda tier: case(), validate=validate, nontrivial=nontrivial, classes=classes, render=render,
         n={"quick": 1000, "thorough": 15000}, shards={"quick": 8, "thorough": 16},
-        essential=("missing=both", "missing=ns", "missing=ew", "channel=config", "channel=kw", "channel=master", "same_numbers_twice",
+        essential=("missing=both", "missing=ns", "missing=ew", "channel=config", "channel=kw", "channel=master", "channel=master_late", "same_numbers_twice",
                    "number_substring_collision")),
     Sub("ocr", oracle, strategy=lambda tier: case(ocr=True), validate=validate, nontrivial=nontrivial, classes=classes, render=render,
         n={"quick": 500, "thorough": 6000}, shards={"quick": 4, "thorough": 16}),
